@@ -100,7 +100,7 @@ def schedules(nprocs, bound, rnd, nrandom):
 def cases(quick, rnd):
     out = []
     for name, procs in families(quick):
-        for s in schedules(len(procs), 40 if quick else 70, rnd, 60 if quick else 3000):
+        for s in schedules(len(procs), 40 if quick else 60, rnd, 60 if quick else 1500):
             out.append({"ev": "sched", "family": name, "schedule": s,
                         "procs": [{"op": op, "T": t, "v": v} for (op, t, v) in procs]})
     return out
